@@ -1,6 +1,7 @@
 package main
 
 import (
+	"time"
 	"bytes"
 	"fmt"
 	"os"
@@ -480,6 +481,47 @@ func c19UfsRenameDir(other string, dotu bool, D int) Scenario {
 	}}
 }
 
+// (j) files whose host modification time is outside what 32 bits of seconds carry
+// (before 1970, after 2106): stats and directory reads of them on different fids at once
+func c19UfsOddTimes(dotu bool, D int) Scenario {
+	var root, base string
+	name := fmt.Sprintf("ufs files with mtimes before 1970 and after 2106, stat'ed and listed at once dotu=%v", dotu)
+	body := func() {
+		vs.EnableHB()
+		os.RemoveAll(root)
+		os.MkdirAll(filepath.Join(root, "d"), 0o755)
+		for i, t := range []time.Time{time.Unix(-300000000, 500000000), time.Unix(1<<32+1000, 0), time.Unix(-1, 999999999)} {
+			p := filepath.Join(root, "d", fmt.Sprintf("old%d", i))
+			os.WriteFile(p, []byte("x"), 0o644)
+			os.Chtimes(p, t, t)
+		}
+		h := newUfsH(root, 8216, dotu)
+		c := h.Connect()
+		ver := "9P2000"
+		un := ""
+		if dotu {
+			ver = "9P2000.u"
+		} else {
+			un = go9p.OsUsers.Uid2User(os.Geteuid()).Name()
+		}
+		c.Version(8216, ver)
+		c.Rpc(tattach(1, 0, wire.NOFID, un, uint32(os.Geteuid()), dotu))
+		c.Rpc(twalk(2, 0, 1, "d", "old0"))
+		c.Rpc(twalk(2, 0, 2, "d", "old1"))
+		c.Rpc(twalk(2, 0, 3, "d"))
+		c.Rpc(&wire.Msg{Type: wire.Topen, Tag: 2, Fid: 3, Mode: 0})
+		vs.Window(true)
+		c.Send(dotu, &wire.Msg{Type: wire.Tstat, Tag: 10, Fid: 1}, &wire.Msg{Type: wire.Tstat, Tag: 11, Fid: 2}, &wire.Msg{Type: wire.Tread, Tag: 12, Fid: 3, Offset: 0, Count: 4096})
+		vs.Idle()
+		vs.Window(false)
+	}
+	return Scenario{Name: name, Run: func(rc *RunCtx) *Result {
+		base, root = scratchDir("c19")
+		defer os.RemoveAll(base)
+		return runVs(rc, &VsSpec{Name: name, Body: body, Check: c19Check, P: D, Delay: true})
+	}}
+}
+
 func c19Scenarios(tier string) []Scenario {
 	D := 1
 	if tier == "thorough" {
@@ -496,6 +538,7 @@ func c19Scenarios(tier string) []Scenario {
 	out = append(out, c19UfsScenario(3, true, D), c19ClientScenario(3, false, D))
 	out = append(out, c19UfsSymlinkedRoot(false, D), c19UfsSymlinkedRoot(true, D))
 	out = append(out, c19UfsFreshUsers(D))
+	out = append(out, c19UfsOddTimes(false, D), c19UfsOddTimes(true, D))
 	out = append(out, c19UfsRenameDir("create", false, D+1), c19UfsRenameDir("walk", true, D+1), c19UfsRenameDir("stat", true, D+1))
 	out = append(out, c19UfsSharedDotDot(false, D), c19UfsSharedDotDot(true, D))
 	out = append(out, c19UfsSpelledRoot("/", true, D), c19UfsSpelledRoot("//./", false, D))
